@@ -55,6 +55,10 @@ int32_t  t_dowhile(int32_t a)                          { int32_t k = a % 3; if (
 int32_t  t_switch(int32_t a)                           { int32_t r = 0; switch (a % 4) { case 0: r = 10; break; case 1: r = 11; case 2: r += 20; break; default: r = -1; } return r; }
 static inline int32_t helper_sq(int32_t x)             { return x * x; }
 int32_t  t_call(int32_t a)                             { int32_t k = a % 100; return helper_sq(k) + helper_sq(k + 1); }
+static int32_t helper_multi(int32_t a, int32_t b)      { if (a < 0) return -1; if (b < 0) { a++; return a * 2; } return a % 7 + b % 5; }
+int32_t  t_call_multi(int32_t a, int32_t b)            { int32_t k = helper_multi(a % 50, b % 50); return k * 3 + helper_multi(b % 9, a % 9); }
+static void helper_void_multi(int32_t& x, int32_t y)   { if (y < 0) { x = -x; return; } if (y == 0) return; x += y; }
+int32_t  t_call_void_multi(int32_t a, int32_t b)       { int32_t k = a % 100; helper_void_multi(k, b % 3); helper_void_multi(k, k % 2); return k; }
 static void helper_ref(int32_t& x, const int32_t& y)   { x += y; x *= 2; }
 int32_t  t_ref(int32_t a, int32_t b)                   { int32_t k = a % 1000; helper_ref(k, b % 1000); return k; }
 int32_t  t_array(int32_t a, uint32_t i)                { int32_t v[4] = {1, 2, 3, 4}; v[i % 4] = a % 50; v[(i + 1) % 4] += 7; return v[0] * 1000 + v[1] * 100 + v[2] * 10 + v[3]; }
@@ -96,7 +100,7 @@ SIGS = {
     't_compound_signed': ('i32', [('a', 'i32s'), ('b', 'u8')]), 't_u64_from_i32': ('u64', [('a', 'i32')]), 't_abs_diff': ('i32', [('a', 'u32'), ('b', 'u32')]),
     't_idx': ('u32', [('n', 'u32'), ('x', 'u32'), ('y', 'u32')]),
     't_ternary_side': ('i32', [('a', 'i32s'), ('b', 'i32s')]), 't_dowhile': ('i32', [('a', 'i32')]), 't_switch': ('i32', [('a', 'u32s')]),
-    't_call': ('i32', [('a', 'i32')]), 't_ref': ('i32', [('a', 'i32'), ('b', 'i32')]), 't_array': ('i32', [('a', 'i32'), ('i', 'u32')]),
+    't_call': ('i32', [('a', 'i32')]), 't_call_multi': ('i32', [('a', 'i32s'), ('b', 'i32s')]), 't_call_void_multi': ('i32', [('a', 'i32s'), ('b', 'i32s')]), 't_ref': ('i32', [('a', 'i32'), ('b', 'i32')]), 't_array': ('i32', [('a', 'i32'), ('i', 'u32')]),
     't_break_continue': ('i32', [('n', 'u32')]), 't_early_return': ('i32', [('a', 'i32s'), ('b', 'i32s')]), 't_comma_for': ('u32', [('n', 'u32')]),
     't_mixed_chain': ('i64', [('a', 'i32'), ('b', 'u16'), ('c', 'i64')]),
     't_vector': ('i32', [('a', 'i32'), ('i', 'u32')]), 't_vector_fill': ('i32', [('n', 'u32')]), 't_copy_n': ('i32', [('n', 'u32')]),
